@@ -3,7 +3,7 @@ EXTENDS Stats, TLC, Json, IOUtils
 Rec == ndJsonDeserialize(IOEnv.TRACE)
 VARIABLE l
 Init == l = 1
-Bad(tag, a, b) == PrintT(<<"REJECT", l, tag, "expected", a, "observed", b>>)
+Bad(tag, a, b) == PrintT("REJECT " \o ToJson([l |-> l, tag |-> tag, expected |-> a, observed |-> b]))
 Chk(tag, a, b) == IF a = b THEN TRUE ELSE Bad(tag, a, b)
 TrigNames == << "orbit", "hb", "hbr", "hc", "pht", "pp", "cal", "sot", "eot", "soc", "eoc", "tf", "fe_rst", "rt", "rs" >>
 Next == /\ l <= Len(Rec)
@@ -16,6 +16,17 @@ Next == /\ l <= Len(Rec)
            /\ \A n \in 1..15 : Chk(TrigNames[n], t.trig[n - 1], s.trig[n])
            /\ Chk("lhc_gap1", t.trig[27], s.trig[16]) /\ Chk("lhc_gap2", t.trig[28], s.trig[17]) /\ Chk("tpc_sync", t.trig[29], s.trig[18])
            /\ Chk("tpc_rst", t.trig[30], s.trig[19]) /\ Chk("tof", t.trig[31], s.trig[20])
+           \* errors: the total equals the number of messages (in the file, and shown on stderr: nothing is muted / filtered / capped in these runs);
+           \* the distinct codes are those of the messages shown
+           /\ Chk("total_errors", s.reported, s.total_errors) /\ Chk("errors_shown", Len(ev.shown), s.total_errors)
+           /\ Chk("unique_error_codes", {ev.shown[k] : k \in 1..Len(ev.shown)} \ {"NOCODE"}, {s.unique_error_codes[k] : k \in 1..Len(s.unique_error_codes)})
+           \* the report (not printed in view mode / when data goes to stdout) shows the same values
+           /\ (ev.report.has => /\ Chk("report_total_errors", ToString(s.total_errors), ev.report.total_errors)
+                                /\ Chk("report_total_rdhs", ToString(t.rdhs_seen), ev.report.total_rdhs)
+                                /\ Chk("report_version", ToString(t.rdh_version), ev.report.version)
+                                /\ Chk("report_data_format", ToString(t.data_format), ev.report.df)
+                                /\ (ev.analysing => Chk("report_hbfs", ToString(t.hbfs_seen), ev.report.hbfs))
+                                /\ (ev.flt # 0 => Chk("report_rdhs_filtered", ToString(t.rdhs_filtered), ev.report.rdhs_filtered)))
         /\ l' = l + 1
 Spec == Init /\ [][Next]_l
 Accepted == IF TLCGet("stats").diameter - 1 = Len(Rec) THEN TRUE
